@@ -47,6 +47,8 @@ package rhp
 //@   assigns pointee:o
 //@ iface net.Conn.Close
 //@   assigns nothing
+//@ iface ContractSigner.SignHash
+//@   assigns nothing
 //@ func openStream
 //@   assigns nothing
 //@   ensures result1 == nil ==> result0 != nil
@@ -134,3 +136,32 @@ package rhp
 //@   ensures [proof] result1 == nil ==> called("VerifyLeafProof") && callres("VerifyLeafProof") && callarg("VerifyLeafProof", 3) == root
 //@        && callarg("VerifyLeafProof", 2) == callres("Uint64n")
 //@   ensures [usage] result1 == nil ==> result0.Usage == prices.RPCVerifySectorCost()
+//
+// Replenish: every deposit the renter accepts is at most the target, the total it signs for is at
+// most target x number of requested accounts (pools), and the signed revision is the local one.
+//@ func RPCReplenishAccounts props C10
+//@   nopanic
+//@   requires t != nil && signer != nil
+//@   loop "range resp.Deposits"
+//@     invariant -1 <= rangeindex && rangeindex < len(resp.Deposits)
+//@     invariant forall j int :: { resp.Deposits[j] } 0 <= j && j <= rangeindex ==> resp.Deposits[j].Amount.Cmp(p.Target) <= 0
+//@   ensures [per-deposit] result1 == nil ==> forall j int :: { result0.Deposits[j] } 0 <= j && j < len(result0.Deposits) ==> result0.Deposits[j].Amount.Cmp(p.Target) <= 0
+//@   ensures [bound] result1 == nil && called("ReviseForReplenish") ==> callarg("ReviseForReplenish", 0) == p.Contract.Revision
+//@        && callarg("ReviseForReplenish", 1).Cmp(p.Target.Mul64(uint64(len(p.Accounts)))) <= 0 && callres("ReviseForReplenish", 2) == nil
+//@        && result0.Usage == callres("ReviseForReplenish", 1)
+//@   ensures [nothing-due] result1 == nil && !called("ReviseForReplenish") ==> result0.Revision == p.Contract.Revision
+//@   ensures [hostsig] result1 == nil && called("ReviseForReplenish") ==> hostSigned(p.Contract.Revision.HostPublicKey, callres("ReviseForReplenish", 0), result0.Revision)
+//
+//@ func RPCReplenishPools props C10
+//@   nopanic
+//@   requires t != nil && signer != nil
+//@   loop "range resp.Deposits"
+//@     invariant -1 <= rangeindex && rangeindex < len(resp.Deposits)
+//@     invariant forall j int :: { resp.Deposits[j] } 0 <= j && j <= rangeindex ==> resp.Deposits[j].Amount.Cmp(p.Target) <= 0
+//@   ensures [per-deposit] result1 == nil ==> forall j int :: { result0.Deposits[j] } 0 <= j && j < len(result0.Deposits) ==> result0.Deposits[j].Amount.Cmp(p.Target) <= 0
+//@   ensures [count] result1 == nil ==> len(result0.Deposits) == len(p.Pools)
+//@   ensures [bound] result1 == nil && called("ReviseForReplenish") ==> callarg("ReviseForReplenish", 0) == p.Contract.Revision
+//@        && callarg("ReviseForReplenish", 1).Cmp(p.Target.Mul64(uint64(len(p.Pools)))) <= 0 && callres("ReviseForReplenish", 2) == nil
+//@        && result0.Usage == callres("ReviseForReplenish", 1)
+//@   ensures [nothing-due] result1 == nil && !called("ReviseForReplenish") ==> result0.Revision == p.Contract.Revision
+//@   ensures [hostsig] result1 == nil && called("ReviseForReplenish") ==> hostSigned(p.Contract.Revision.HostPublicKey, callres("ReviseForReplenish", 0), result0.Revision)
